@@ -477,7 +477,7 @@ pub fn run(ctx: &Ctx, report: &mut Report) {
         .into();
     report.assumptions.push("hmac/sha1/sha2 crates as primitives (checked against RFC 2202/4231 vectors in vmodel's unit tests); the digest composition is vmodel::tsig".into());
     let thorough = ctx.tier == crate::fw::Tier::Thorough;
-    run_prop(ctx, report, PropSpec { name: "tsig-sign-verify", cases: ctx.tier.pick(40_000, 80_000), max_shrink_iters: 3000 }, move || case_strategy(thorough), oracle);
+    run_prop(ctx, report, PropSpec { name: "tsig-sign-verify", cases: ctx.tier.pick(120_000, 160_000), max_shrink_iters: 3000 }, move || case_strategy(thorough), oracle);
 }
 
 pub fn replay(_check: &str, case: &serde_json::Value) -> Verdict {
